@@ -159,23 +159,34 @@ def native_replay(o=None):
             [dict(it=[6], vars=['betay']), dict(it=[8, 4, 6], vars=['betaup3']), dict(it=[4, 6, 8], vars=['betaup3']), dict(it=[8], vars=['betay'])],
             # every component cached on its own at incomparable sets of iterations, then the tensor (twice)
             [dict(it=[6, 8], vars=['betax']), dict(it=[10, 12], vars=['betay']), dict(it=[8, 10], vars=['betaz']), dict(it=[6, 8, 10, 12], vars=['betaup3']),
-             dict(it=[6, 8, 10, 12], vars=['alpha', 'betaup3'])]]
+             dict(it=[6, 8, 10, 12], vars=['alpha', 'betaup3'])],
+            # the same variable and iterations at two refinement levels, level 0 cached first
+            [dict(it=[0, 2, 4], vars=['alpha', 'betaup3'], rl=0), dict(it=[2, 4, 6], vars=['betaup3'], rl=1), dict(it=[0, 2, 4, 6], vars=['alpha', 'betaup3'], rl=1),
+             dict(it=[0, 2, 4, 6], vars=['alpha', 'betaup3'], rl=0)],
+            # a tensor named together with one of its own components, part of the request already cached
+            [dict(it=[0, 2], vars=['betaup3', 'betax']), dict(it=[0, 2, 4, 6], vars=['betaup3', 'betax']), dict(it=[2, 4, 6, 8], vars=['betay', 'betaup3', 'alpha']),
+             dict(it=[0, 2, 4, 6, 8], vars=['betay', 'betaup3', 'alpha'])]]
     for layout in (('onefile', 'grouped'), ('onefile', 'ungrouped'), ('proc', 'grouped')):
         for seq in seqs:
             root = tempfile.mkdtemp(prefix='c12_')
             try:
                 truth = etgen.make_sim(root, 'sim', layout, restarts=[(0, [0, 2, 4], 0), (1, [4, 6, 8, 10, 12], 1)], shape=(5, 4, 3), cuts=(2, 1, 1),
-                                       ghost=2, rls=(0,), variables=('alp', 'betax', 'betay', 'betaz'))
+                                       ghost=2, rls=(0, 1), variables=('alp', 'betax', 'betay', 'betaz'))
                 p = etgen.param_for(root, 'sim')
                 latest_ = {0: 0, 2: 0, 4: 1, 6: 1, 8: 1, 10: 1, 12: 1}
                 for qi, req in enumerate(seq):
-                    d = aurel.read_data(p, verbose=False, skip_last=False, rl=0, **req)
-                    for av in scalars(req['vars']):
+                    req = dict(req)
+                    lv = req.pop('rl', 0)
+                    d = aurel.read_data(p, verbose=False, skip_last=False, rl=lv, **req)
+                    for av in dict.fromkeys(scalars(req['vars'])):
                         ev = {'alpha': 'alp'}.get(av, av)
+                        if len(d[av]) != len(set(req['it'])):
+                            bad.append(f'layout {layout}, after the calls {seq[:qi + 1]}: {av} has {len(d[av])} entries for {len(set(req["it"]))} iterations')
+                            continue
                         for j, it in enumerate(sorted(req['it'])):
-                            if d[av][j] is None or not np.array_equal(d[av][j], truth[(ev, it, 0, latest_[it])]):
-                                bad.append(f'layout {layout}, after the calls {seq[:qi + 1]}: {av} at it={it} is not the stored data'
-                                           + ('' if d[av][j] is None else f' (it is the data of it={[i for i in latest_ if np.array_equal(d[av][j], truth[(ev, i, 0, latest_[i])])]})'))
+                            if d[av][j] is None or not np.array_equal(d[av][j], truth[(ev, it, lv, latest_[it])]):
+                                bad.append(f'layout {layout}, after the calls {seq[:qi + 1]}: {av} at it={it} rl={lv} is not the stored data'
+                                           + ('' if d[av][j] is None else f' (it is the data of (it, rl)={[(i, l_) for i in latest_ for l_ in (0, 1) if np.array_equal(d[av][j], truth[(ev, i, l_, latest_[i])])]})'))
             except Exception as e:
                 bad.append(f'layout {layout}: raised {type(e).__name__}: {e}')
             finally:
